@@ -18,9 +18,18 @@ FIRST_PASS_MISSED = {  # target check did not catch it before the strengthening 
  "C16b": "the empty source was not among the compress configurations -> added",
  "C17b": "the independent encoder never stored a compressed chunk larger than its source -> three-valued storage form",
 }
+ROUND2_FIX = {
+ "C01d": "CLI round trip cloned only onto new files -> second clone over an existing, longer file with --force-create",
+ "C03d": "no leg combined --seed-output with a stdin seed -> real-binary leg: every layout x every word piped into --seed -",
+ "C06c": "--seed-output never together with --force-create -> alternate scenarios of the CLI legs carry both flags",
+ "C06d": "C06's CLI HTTP leg served unfragmented bodies -> every 40th scenario with bodies flushed byte by byte",
+ "C07c": "C07 drove read_chunks directly, never Archive::chunk_stream on a source with repeated chunks -> chunk_stream leg over all subsets",
+ "C08d": "the scripted file was 12 bytes: sizes beyond 64 KiB unreachable -> read_at / read_chunks around 2^16..2^18 on a 300 kB file",
+ "C11c": "C11 had no run starting from the debris of a failed run -> stale temp file in every other run of the stdin leg",
+}
 rows = []
 for pid in [f"C{i:02d}" for i in range(1, 18)]:
-    for v in "ab":
+    for v in "abcd":
         d = f"/tmp/seed/{pid}"
         if not os.path.exists(f"{d}/{v}.eval.json"):
             continue
@@ -31,10 +40,16 @@ for pid in [f"C{i:02d}" for i in range(1, 18)]:
             continue
         meta = json.load(open(meta_p))
         key = f"{pid}{v}"
-        if key in FIRST_PASS_MISSED:
-            meta["first_pass"] = "missed by the target property's check; strengthened: " + FIRST_PASS_MISSED[key]
+        fpj = f"{d}/{v}.trial.quick.firstpass.json"
+        missed = key in FIRST_PASS_MISSED
+        if v in "cd" and os.path.exists(fpj):
+            fp = json.load(open(fpj))
+            missed = fp.get(pid, {}).get("rc") != 1
+            meta["first_pass_checks_commit"] = "49a2c6c (the checks as they stood before the second round of seeded changes)"
+        if missed:
+            meta["first_pass"] = "missed by the target property's check; strengthened: " + FIRST_PASS_MISSED.get(key, ROUND2_FIX.get(key, "see DESIGN.md section 9"))
         else:
-            meta["first_pass"] = "caught by the target property's check as first built"
+            meta["first_pass"] = "caught by the target property's check as it stood when the change was written"
         json.dump(meta, open(meta_p, "w"), indent=1)
         notes = open(f"{d}/{v}_notes.md").read() if os.path.exists(f"{d}/{v}_notes.md") else ""
         title = notes.strip().splitlines()[0].lstrip("# ").strip() if notes.strip() else ""
@@ -42,7 +57,7 @@ for pid in [f"C{i:02d}" for i in range(1, 18)]:
         det = meta["detection"].get("quick", {}).get("detected_by", {})
         target = ", ".join(det.get(pid, [])) or "**not detected**"
         others = ", ".join(k for k in sorted(det) if k != pid) or "-"
-        fp = "first pass" if key not in FIRST_PASS_MISSED else "after strengthening"
+        fp = "first pass" if not missed else "after strengthening"
         rows.append(f"| {key} | {title[:110]} ({files}) | {target} | {others} | {fp} |")
 print("| id | change (files) | classes reported by the target check (quick) | other checks that report it | caught |")
 print("|----|----------------|-----------------------------------------------|-----------------------------|--------|")
